@@ -108,11 +108,18 @@ Proof.
   split; repeat split; congruence.
 Qed.
 
-Lemma regen_inv b base D s o ob :
-  inv b base NX D s -> hget s o = Some ob -> b <= o -> ~ D (o_id ob) -> inv b base NX D (regen s o ob).
+Definition rgX (o : nat) (ob : obj) : key -> nat -> Prop :=
+  fun (k : key) (o' : nat) => NX k o' \/ (k = o_id ob /\ o' = o).
+
+(* the invariant at the intermediate states of RegenerateID (with the excused
+   cache entry) and at its end *)
+Lemma regen_invs b base D s o ob :
+  inv b base NX D s -> hget s o = Some ob -> b <= o -> ~ D (o_id ob) ->
+  inv b base (rgX o ob) D (rg_s1 s o ob) /\ inv b base (rgX o ob) D (rg_s2 s o ob) /\
+  inv b base (rgX o ob) D (rg_s3 s o ob) /\ inv b base NX D (rg_s4 s o ob) /\ inv b base NX D (regen s o ob).
 Proof.
   intros I Ho Hbo HnD.
-  pose (X' := fun (k : key) (o' : nat) => NX k o' \/ (k = o_id ob /\ o' = o)).
+  pose (X' := rgX o ob).
   assert (F : ffnd s) by (eapply inv_ffnd; exact I).
   assert (I1 : inv b base NX D (drawn1 s)) by (apply inv_drawn1; exact I).
   destruct (i_fh _ _ _ _ _ I1 o ob Hbo Ho) as [Hk1 Hr1].
@@ -134,14 +141,19 @@ Proof.
   assert (I5 : inv b base X' D (rg_s4 s o ob)).
   { unfold rg_s4. apply inv_cset; [exact I4 | exact H3 | apply (i_b _ _ _ _ _ I3) | exact HnD]. }
   assert (I6 : inv b base NX D (rg_s4 s o ob)).
-  { eapply inv_weaken_X; [exact I5|]. intros k o' ob' Hl Ho' [[]|[-> ->]].
+  { eapply inv_weaken_X; [exact I5|]. intros k o' ob' Hl Ho' [[]|[-> ->]]. exfalso.
     unfold rg_s4 in Hl. apply (cset_cache_own _ _ _ _ _ _ _ _ I4 H3) in Hl.
     apply hget_Some_lt in Ho. rewrite A5 in Hl. lia. }
+  split; [exact I2|]. split; [exact I3|]. split; [exact I4|]. split; [exact I6|].
   unfold regen. apply inv_set_pending; [exact I6|].
   intros d k Hin. apply in_app_iff in Hin. destruct Hin as [Hin|[Hin|[]]].
   - eapply (i_fp _ _ _ _ _ I6); exact Hin.
   - apply (f_equal snd) in Hin. cbn [snd] in Hin. subst k. rewrite B1. exact Hk1.
 Qed.
+
+Lemma regen_inv b base D s o ob :
+  inv b base NX D s -> hget s o = Some ob -> b <= o -> ~ D (o_id ob) -> inv b base NX D (regen s o ob).
+Proof. intros I Ho Hbo HnD. apply (regen_invs _ _ _ _ _ _ I Ho Hbo HnD). Qed.
 
 (* the handle after RegenerateID *)
 Lemma regen_handle s o ob : ffnd s -> hget s o = Some ob ->
